@@ -204,6 +204,7 @@ type ExternSpec struct {
 	Params   []string
 	Pure     bool
 	NoReturn bool
+	Once     bool // result is one fixed value per verified function (function is called at most once: checked)
 	Requires []*Clause
 	Ensures  []*Clause
 	Modifies []string
@@ -286,6 +287,8 @@ func loadExternSpecs(dir string) (*ExternSpecs, error) {
 				cur.Pure = true
 			case "noreturn":
 				cur.NoReturn = true
+			case "once":
+				cur.Once = true
 			case "modifies":
 				for _, m := range strings.Split(rest, ",") {
 					cur.Modifies = append(cur.Modifies, strings.TrimSpace(m))
